@@ -496,16 +496,19 @@ fn relation(opt: &Opt, m: &MsgDesc) -> BTreeMap<String, String> {
                 "relation",
                 match arg_text(*i) {
                     Some(t) if t == v => "equal",
-                    Some(t) if v.ends_with('/') && t.starts_with(v.as_str()) => {
-                        "rule-ends-with-slash-and-prefixes-arg"
-                    }
-                    Some(t) if t.ends_with('/') && v.starts_with(t) => {
-                        "arg-ends-with-slash-and-prefixes-rule"
-                    }
+                    Some(t) if v.ends_with('/') && t.starts_with(v.as_str()) => "slash-prefix",
+                    Some(t) if t.ends_with('/') && v.starts_with(t) => "slash-prefix",
                     Some(_) => "unrelated",
                     None => "no-text",
                 },
             );
+            if let Some(t) = arg_text(*i) {
+                if t != v && v.ends_with('/') && t.starts_with(v.as_str()) {
+                    put("slash_side", "rule-value-ends-with-slash-and-prefixes-argument");
+                } else if t != v && t.ends_with('/') && v.starts_with(t) {
+                    put("slash_side", "argument-ends-with-slash-and-prefixes-rule-value");
+                }
+            }
         }
         Opt::Arg0Ns(ns) => {
             put("arg_type", arg_kind(0));
